@@ -752,8 +752,8 @@ def c19(tier):
     rnd.shuffle(scen)
     # stratified: every kind of scenario is represented before the random remainder
     def stratum(p):
-        lv = [l for l in sorted(p["tree"]) if p["tree"][l]["defect"] != "absent"]
-        return (p["cfgArg"], tuple(lv), len(p["overrides"]), p["error"])
+        lv = [(l, p["tree"][l]["defect"] == "is_dir") for l in sorted(p["tree"]) if p["tree"][l]["defect"] != "absent"]
+        return (p["cfgArg"], tuple(lv), len(p["overrides"]), p["error"], tuple(sorted({o["defect"] for o in p["overrides"]} | {p["tree"][l]["defect"] for l in p["tree"]})))
     by = {}
     for p in scen:
         by.setdefault(stratum(p), []).append(p)
@@ -775,7 +775,7 @@ def c19(tier):
     c.extra["strata"] = len(by)
     c.samples.append({"scenario": chosen[0]})
     return c.finish(
-        rule="CliConfig.tla: directory chains of depth 2 (thorough 3), at most two pasfmt.toml files anywhere on the chain holding one or two settings or a defect (unknown key / ill-typed value), --config-file in {absent, file, missing, directory}, up to two -C options (valid, duplicate keys, defects); "
+        rule="CliConfig.tla: directory chains of depth 2 (thorough 3), at most two pasfmt.toml files anywhere on the chain holding one or two settings or a defect (unknown key / ill-typed value / number outside the option's domain) or being a DIRECTORY of that name (which does not end the search), --config-file in {absent, file, missing, directory}, up to two -C options (valid, duplicate keys, defects); "
              "every final state is a scenario, stratified by (config-file kind, levels holding a file, number of overrides, error) and materialised: the run must fail without touching the probe file iff the model says error, otherwise the probe's bytes must equal the result of the same effective configuration given entirely by -C in an empty tree")
 
 
